@@ -312,6 +312,10 @@ Definition wire_602 (x : sx) : sx :=
   | _ => sx_err
   end.
 
+(* (dtype-of-weights dtype-of-weights_channel) -> dtype of weights * weights_channel[..., newaxis] *)
+Definition wire_605 (x : sx) : sx :=
+  match x with L [I a; I b] => I (weights_dt a b) | _ => sx_err end.
+
 Definition to_req (x : sx) : gda_req * list (list nat) :=
   match x with
   | L [I p; I k; I st; chunks; I d; index; off; blocks] =>
